@@ -23,11 +23,29 @@ Theorem C05_read_full :
 Proof. exact read_full_ok. Qed.
 Print Assumptions C05_read_full.
 
-(* a reader that fails at once yields errMIME (no header is matched) together with that error *)
+(* special case kept for reference: a reader that fails at once yields errMIME (no header is matched) together with that error *)
 Theorem C05_partial_error_at_start :
   forall limit x e sc, exists r', detect_reader_read limit (mk_reader x (Fail e :: sc)) = (None, RErr e, r').
 Proof. exact reader_error_at_start. Qed.
 Print Assumptions C05_partial_error_at_start.
+
+(* a failure after ANY failure-free prefix of reads: the outcome is either that of the failure-free case (the
+   header was complete before the failing read was reached) or errMIME with exactly that error - never another
+   error, never a partial header *)
+Theorem C05_error_anywhere :
+  forall limit x pre e post, no_fail pre ->
+    (exists r', detect_reader_read limit (mk_reader x (pre ++ Fail e :: post)) = (Some (hdr limit x), RNil, r')) \/
+    (exists r', detect_reader_read limit (mk_reader x (pre ++ Fail e :: post)) = (None, RErr e, r')).
+Proof. exact reader_error_anywhere. Qed.
+Print Assumptions C05_error_anywhere.
+
+(* "before the header is complete": when the reads preceding the failure offer fewer bytes than the input holds
+   and than the limit asks for, the error surfaces - however many bytes were delivered before it *)
+Theorem C05_error_before_header :
+  forall limit x pre e post, no_fail pre -> offered pre < length x -> (limit = 0 \/ N.of_nat (offered pre) < limit)%N ->
+    exists r', detect_reader_read limit (mk_reader x (pre ++ Fail e :: post)) = (None, RErr e, r').
+Proof. exact reader_error_before_header. Qed.
+Print Assumptions C05_error_before_header.
 
 Example C05_one_byte_chunks :
   fst (detect_reader_read 4 (mk_reader [1;2;3;4;5;6]%N [Chunk 1 false; Chunk 0 false; Chunk 1 false; Chunk 1 true])) = (Some [1;2;3;4]%N, RNil).
